@@ -1084,6 +1084,113 @@ fn lsndrop_run(cfg: &Cfg, rc: &RCfg, rng: &mut StdRng, events: &mut Vec<Value>) 
     w.teardown();
 }
 
+/// Directed choreography 3: one handshake segment (mostly the third, the connector's ACK) is
+/// lost; by the seed the connector then stays idle (server speaks first) or writes.
+fn hsackloss_run(cfg: &Cfg, rc: &RCfg, rng: &mut StdRng, events: &mut Vec<Value>) {
+    let mut w = World::new(cfg);
+    let mut eps: Vec<(i64, String)> = Vec::new();
+    events.push(w.listen());
+    events.push(w.connect());
+    // which handshake segment is lost: 0 = SYN, 1 = SYN-ACK, 2.. = the final ACK
+    let victim = match rng.random_range(0..6) {
+        0 => "S",
+        1 => "SA",
+        _ => "A",
+    };
+    let mut lost = rc.maxdrops == 0;
+    let idle_client = rng.random_range(0..4) != 0;
+    for round in 0..(3 * rc.idle_rounds + 12) {
+        events.push(w.egress());
+        poll_into(&mut w, events, &mut eps);
+        while !w.wire.is_empty() {
+            let fl = w.pkt_json(&w.wire[0].0.clone())["fl"].as_str().unwrap_or("").to_string();
+            if !lost && fl == victim {
+                lost = true;
+                events.push(w.drop_pk(1).unwrap());
+            } else {
+                events.push(w.deliver(1).unwrap());
+                poll_into(&mut w, events, &mut eps);
+            }
+        }
+        if !idle_client && round == 4 {
+            if let Some((p, _)) = eps.iter().find(|e| e.1 == "c").cloned() {
+                let data = w.next_bytes(p, "c", 1);
+                if let Some(e) = w.write(p, "c", &data) {
+                    events.push(e);
+                }
+            }
+        }
+        // the server application accepts as soon as something is offered, and speaks first
+        if let Some(e) = w.accept() {
+            let p = e["pp"].as_i64().unwrap();
+            eps.push((p, "s".into()));
+            events.push(e);
+            let data = w.next_bytes(p, "s", 2.min(rc.maxbytes.max(1)));
+            if let Some(e) = w.write(p, "s", &data) {
+                events.push(e);
+            }
+        }
+    }
+    settle(&mut w, events, &mut eps, rc);
+    w.teardown();
+}
+
+/// Directed choreography 4: the connector bursts right after the handshake (on the 65535
+/// window of the SYN-ACK) into a receive buffer smaller than the burst, the pure ACKs that
+/// announce what was taken are lost, and the reader stays idle while the retransmits arrive.
+fn overlap_run(cfg: &Cfg, rc: &RCfg, rng: &mut StdRng, events: &mut Vec<Value>) {
+    let mut w = World::new(cfg);
+    let mut eps: Vec<(i64, String)> = Vec::new();
+    let mut drops = 0u32;
+    events.push(w.listen());
+    events.push(w.connect());
+    for _ in 0..8 {
+        events.push(w.egress());
+        poll_into(&mut w, events, &mut eps);
+        flush_wire(&mut w, events, &mut eps, rng, &mut drops, 0, 0);
+        if let Some(e) = w.accept() {
+            eps.push((e["pp"].as_i64().unwrap(), "s".into()));
+            events.push(e);
+        }
+        if eps.len() == 2 {
+            break;
+        }
+    }
+    if eps.len() == 2 {
+        let p = eps[0].0;
+        let burst = rng.random_range(1..=rc.wmax.max(1));
+        let data = w.next_bytes(p, "c", burst);
+        if let Some(e) = w.write(p, "c", &data) {
+            events.push(e);
+        }
+        let pdrop = 40 + rng.random_range(0..50);
+        for round in 0..(2 * rc.idle_rounds + 4) {
+            events.push(w.egress());
+            poll_into(&mut w, events, &mut eps);
+            // data reaches the receiver in order; pure ACKs coming back are lost by the seed
+            while !w.wire.is_empty() {
+                let pj = w.pkt_json(&w.wire[0].0.clone());
+                let pure_ack = pj["src"] == 2 && pj["fl"] == "A";
+                if pure_ack && drops < rc.maxdrops && rng.random_range(0..100) < pdrop {
+                    drops += 1;
+                    events.push(w.drop_pk(1).unwrap());
+                } else {
+                    events.push(w.deliver(1).unwrap());
+                    poll_into(&mut w, events, &mut eps);
+                }
+            }
+            // a slow reader: an occasional small read late in the run
+            if round > rc.idle_rounds && rng.random_range(0..5) == 0 {
+                if let Some(e) = w.read(p, "s", 1) {
+                    events.push(e);
+                }
+            }
+        }
+    }
+    settle(&mut w, events, &mut eps, rc);
+    w.teardown();
+}
+
 fn random(args: &[String]) {
     let cfg = Cfg::from_args(args);
     let seed = arg_u64(args, "seed", 1);
@@ -1116,6 +1223,8 @@ fn random(args: &[String]) {
         let res = catch(|| match mode.as_str() {
             "simclose" => simclose_run(&cfg, &rc, &mut rng, &mut evs),
             "lsndrop" => lsndrop_run(&cfg, &rc, &mut rng, &mut evs),
+            "hsackloss" => hsackloss_run(&cfg, &rc, &mut rng, &mut evs),
+            "overlap" => overlap_run(&cfg, &rc, &mut rng, &mut evs),
             _ => random_run(&cfg, &rc, &mut rng, &mut evs),
         });
         events.extend(evs);
